@@ -16,7 +16,8 @@ from harness.runner import Phase, Verdict
 
 ID = "C07"
 LEVEL = "exploration"
-TECHNIQUE = "property-based testing (Hypothesis) + enumerated deep shapes against a set-based BFS reference"
+TECHNIQUE = ("property-based testing (Hypothesis) + enumerated deep shapes + coverage-guided fuzzing (atheris/libFuzzer) "
+             "against a set-based BFS reference")
 RULE = ("cases = (transition list, final list); random digraphs of 1-40 states (0-4 successors per state, "
         "self-loops and parallel edges allowed), finals drawn with repetitions in any order; plus enumerated "
         "deep shapes (chain, comb, binary in-tree, ladder, cycle-with-tail) and generator boards. "
@@ -240,3 +241,15 @@ def check_case(case):
                                             f"{sorted(want[t].elements())[:8]}")
                     break
     return v
+
+
+def fuzz_stage(tier, seed):
+    """Coverage-guided stage: atheris target fuzz/fuzz_revdfs.py with the BFS / Counter oracle inside."""
+    from harness import fuzzstage
+    runs = 40000 if tier == "quick" else 2000000
+    c = fuzzstage.campaign("fuzz_revdfs.py", runs, seed, max_len=160)
+    info = dict(engine="atheris (libFuzzer), target fuzz/fuzz_revdfs.py",
+                campaigns=[dict(corpus="empty-corpus", executions=c["executions"], outcome_classes=c["stats"],
+                                crashes=len(c["crashes"]), skipped=c.get("skipped"), note=c.get("note"),
+                                final_corpus_size=c.get("corpus_size"))])
+    return info, list(c["crashes"])
